@@ -7,6 +7,7 @@
   Part 3: what a "step" is on a finite set of cells (`NbrTied`, `IsStep`).
   Part 4: the boundary rows of the model (Dirichlet / no-flux / periodic ghost relations).
   Part 5: the interior cells as a `Finset`; a solution of the assembled system (`Solves`) is a step.
+  Part 6: linearity — the difference of two solutions solves the homogeneous system.
 -/
 import PyFV.Lemmas.Operators
 import PyFV.Lemmas.WF
@@ -419,10 +420,12 @@ theorem stepRhs_neg (old : CellFld α) (dt : α) (alpha : CellFld α) (c : Idx) 
 /-- The value at a neighbour position `nb` of the cell `c ∈ S` is
     * an unknown of `S` itself, or a ghost tied to `c` by
     * a no-flux relation `x_g = x_c`, or
-    * a periodic relation `x_g = x_{c'}` with `c' ∈ S`, or
+    * a periodic relation `x_g = x_c + θ (x_{c'} − x_c)` with `c' ∈ S`, `θ ≥ 0`
+      (`θ = 1`, i.e. `x_g = x_{c'}`, when the two end cells of the line are equal), or
     * a Dirichlet relation `(x_g + x_c)/2 = cD`, the datum `cD` satisfying `P`. -/
 def NbrTied (S : Finset Idx) (x : CellFld α) (P : α → Prop) (c nb : Idx) : Prop :=
-  nb ∈ S ∨ x nb = x c ∨ (∃ c' ∈ S, x nb = x c') ∨ ∃ cD, P cD ∧ x nb = 2 * cD - x c
+  nb ∈ S ∨ x nb = x c ∨ (∃ c' ∈ S, ∃ θ, 0 ≤ θ ∧ x nb = x c + θ * (x c' - x c))
+    ∨ ∃ cD, P cD ∧ x nb = 2 * cD - x c
 
 theorem NbrTied.mono {S : Finset Idx} {x : CellFld α} {P Q : α → Prop} {c nb : Idx}
     (hPQ : ∀ v, P v → Q v) (h : NbrTied S x P c nb) : NbrTied S x Q c nb := by
@@ -434,10 +437,10 @@ theorem NbrTied.mono {S : Finset Idx} {x : CellFld α} {P Q : α → Prop} {c nb
 
 theorem NbrTied.neg {S : Finset Idx} {x : CellFld α} {P : α → Prop} {c nb : Idx}
     (h : NbrTied S x P c nb) : NbrTied S (fun c' => -x c') (fun v => P (-v)) c nb := by
-  rcases h with h | h | ⟨c', hc', h⟩ | ⟨cD, hP, h⟩
+  rcases h with h | h | ⟨c', hc', θ, hθ, h⟩ | ⟨cD, hP, h⟩
   · exact Or.inl h
   · exact Or.inr (Or.inl (by simp only [h]))
-  · exact Or.inr (Or.inr (Or.inl ⟨c', hc', by simp only [h]⟩))
+  · exact Or.inr (Or.inr (Or.inl ⟨c', hc', θ, hθ, by simp only [h]; ring⟩))
   · exact Or.inr (Or.inr (Or.inr ⟨-cD, by simpa using hP, by simp only [h]; ring⟩))
 
 /-- `x` solves one implicit step
@@ -545,6 +548,40 @@ theorem bcRow_periodic (M : Mesh α) (bc : BCs α) (d : Dir) (c : Idx) (x : Cell
   simp only [bcRowHi, hper, if_true, Row.app_four, heq, div_self h0] at hhi
   simp only [bcRowLo, hper, if_true, Row.app_four] at hlo
   constructor <;> linarith
+
+/-- periodic ghosts, arbitrary end cells (`r = DX_{n+1}/DX_0 > 0`): the two boundary rows of a
+    line (equal boundary-face value, equal boundary gradient) give
+    `x_0 = x_1 + θ (x_n − x_1)` and `x_{n+1} = x_n + r θ (x_1 − x_n)` with `θ = 2/(1+r) > 0`:
+    each ghost lies on the far side of its cell, towards the value at the opposite end. -/
+theorem bcRow_periodic_general (M : Mesh α) (bc : BCs α) (d : Dir) (c : Idx) (x : CellFld α)
+    (hper : bc.periodicDir d = true)
+    (hn : 0 < (M.axis d).DX (M.n d + 1)) (h0 : 0 < (M.axis d).DX 0)
+    (hhi : (bcRowHi M bc d c).app x = (bcRowHi M bc d c).rhs)
+    (hlo : (bcRowLo M bc d c).app x = (bcRowLo M bc d c).rhs) :
+    x (c.set d (M.n d + 1)) = x (c.set d (M.n d))
+      + (M.axis d).DX (M.n d + 1) / (M.axis d).DX 0
+        * (2 / (1 + (M.axis d).DX (M.n d + 1) / (M.axis d).DX 0))
+        * (x (c.set d 1) - x (c.set d (M.n d))) ∧
+    x (c.set d 0) = x (c.set d 1)
+      + 2 / (1 + (M.axis d).DX (M.n d + 1) / (M.axis d).DX 0)
+        * (x (c.set d (M.n d)) - x (c.set d 1)) := by
+  simp only [bcRowHi, hper, if_true, Row.app_four] at hhi
+  simp only [bcRowLo, hper, if_true, Row.app_four] at hlo
+  have hr : 0 < (M.axis d).DX (M.n d + 1) / (M.axis d).DX 0 := div_pos hn h0
+  generalize (M.axis d).DX (M.n d + 1) / (M.axis d).DX 0 = r at hhi hr ⊢
+  have h1r : (1 + r) ≠ 0 := by positivity
+  have e0 : (1 + r) * x (c.set d 0)
+      = 2 * x (c.set d (M.n d)) + (r - 1) * x (c.set d 1) := by linarith
+  have e1 : x (c.set d 0) = x (c.set d 1)
+      + 2 / (1 + r) * (x (c.set d (M.n d)) - x (c.set d 1)) := by
+    field_simp
+    linarith
+  refine ⟨?_, e1⟩
+  have e2 : x (c.set d (M.n d + 1))
+      = x (c.set d 0) + x (c.set d 1) - x (c.set d (M.n d)) := by linarith
+  rw [e2, e1]
+  field_simp
+  ring
 
 theorem bcRowHi_periodic_set (M : Mesh α) (bc : BCs α) (d : Dir) (c : Idx) (v : ℕ)
     (hper : bc.periodicDir d = true) : bcRowHi M bc d (c.set d v) = bcRowHi M bc d c := by
@@ -707,11 +744,11 @@ theorem Solves.bcLo {M : Mesh α} {bc : BCs α} {ts : List (TermObj α)} {x : Ce
   simpa only [assembleOp, assembleRhs, bcRow, hcnt, e2, if_false, hdir, e0, e1, if_true] using this
 
 /-- boundary conditions covered by the maximum principle: along every active direction either
-    periodic with equal end cells, or on every boundary face Dirichlet (datum satisfying `P`)
+    periodic (any end cells), or on every boundary face Dirichlet (datum satisfying `P`)
     or no-flux -/
 def BCsOK (M : Mesh α) (bc : BCs α) (P : α → Prop) : Prop :=
   ∀ d, M.kind.active d = true →
-    (bc.periodicDir d = true ∧ (M.axis d).DX (M.n d + 1) = (M.axis d).DX 0) ∨
+    bc.periodicDir d = true ∨
     (bc.periodicDir d = false ∧ ∀ c,
       (((bc.lo d).isDirichlet c ∧ P ((bc.lo d).c c)) ∨ (bc.lo d).isNoFlux c) ∧
       (((bc.hi d).isDirichlet c ∧ P ((bc.hi d).c c)) ∨ (bc.hi d).isNoFlux c))
@@ -738,7 +775,8 @@ theorem isStep_of_solves (M : Mesh α) (hM : M.WF) (bc : BCs α) (P : α → Pro
     intro c hc d hd b
     have hint := Mesh.interior_of_mem_cells hM hc
     have hm : lineM M d c ≠ 0 := ne_of_gt (lineM_pos hM d hint)
-    have hDX : ∀ i, (M.axis d).DX i ≠ 0 := fun i => ne_of_gt ((hM.axis d).pos i)
+    have hDXp : ∀ i, 0 < (M.axis d).DX i := fun i => (hM.axis d).pos i
+    have hDX : ∀ i, (M.axis d).DX i ≠ 0 := fun i => ne_of_gt (hDXp i)
     have hget := Mesh.get_of_mem_cells hM hc d
     cases b
     · -- low side
@@ -747,12 +785,15 @@ theorem isStep_of_solves (M : Mesh α) (hM : M.WF) (bc : BCs α) (P : α → Pro
       · have e0 : c.prev d = c.set d 0 := by rw [Idx.prev, h1]
         have e1 : c.set d 1 = c := by rw [← h1, Idx.set_get]
         have hlo := hx.bcLo hc hd h1
-        rcases hbc d hd with ⟨hper, heq⟩ | ⟨hper, hk⟩
+        rcases hbc d hd with hper | ⟨hper, hk⟩
         · have hc' : c.set d (M.n d) ∈ M.cells := Mesh.set_mem_cells hc hd (by omega) (le_refl _)
           have hhi := hx.bcHi hc' hd (Idx.get_set_same _ _ _)
           rw [bcRowHi_periodic_set M bc d c _ hper] at hhi
-          have := (bcRow_periodic M bc d c x hper heq (hDX 0) hhi hlo).2
-          exact Or.inr (Or.inr (Or.inl ⟨_, hc', by rw [e0, this]⟩))
+          have := (bcRow_periodic_general M bc d c x hper (hDXp _) (hDXp 0) hhi hlo).2
+          rw [e1] at this
+          exact Or.inr (Or.inr (Or.inl ⟨_, hc', _,
+            le_of_lt (div_pos two_pos (add_pos one_pos (div_pos (hDXp _) (hDXp 0)))),
+            by rw [e0, this]⟩))
         · rcases (hk c).1 with ⟨hdir, hP⟩ | hnf
           · have := bcRowLo_dirichlet M bc d c x hper hdir hlo
             rw [e1] at this
@@ -767,12 +808,16 @@ theorem isStep_of_solves (M : Mesh α) (hM : M.WF) (bc : BCs α) (P : α → Pro
       · have e0 : c.next d = c.set d (M.n d + 1) := by rw [Idx.next, hn]
         have e1 : c.set d (M.n d) = c := by rw [← hn, Idx.set_get]
         have hhi := hx.bcHi hc hd hn
-        rcases hbc d hd with ⟨hper, heq⟩ | ⟨hper, hk⟩
+        rcases hbc d hd with hper | ⟨hper, hk⟩
         · have hc' : c.set d 1 ∈ M.cells := Mesh.set_mem_cells hc hd (le_refl _) (by omega)
           have hlo := hx.bcLo hc' hd (Idx.get_set_same _ _ _)
           rw [bcRowLo_periodic_set M bc d c _ hper] at hlo
-          have := (bcRow_periodic M bc d c x hper heq (hDX 0) hhi hlo).1
-          exact Or.inr (Or.inr (Or.inl ⟨_, hc', by rw [e0, this]⟩))
+          have := (bcRow_periodic_general M bc d c x hper (hDXp _) (hDXp 0) hhi hlo).1
+          rw [e1] at this
+          exact Or.inr (Or.inr (Or.inl ⟨_, hc', _,
+            le_of_lt (mul_pos (div_pos (hDXp _) (hDXp 0))
+              (div_pos two_pos (add_pos one_pos (div_pos (hDXp _) (hDXp 0))))),
+            by rw [e0, this]⟩))
         · rcases (hk c).2 with ⟨hdir, hP⟩ | hnf
           · have := bcRowHi_dirichlet M bc d c x hper hdir hhi
             rw [e1] at this
@@ -781,5 +826,102 @@ theorem isStep_of_solves (M : Mesh α) (hM : M.WF) (bc : BCs α) (P : α → Pro
             rw [e1] at this
             exact Or.inr (Or.inl (by rw [e0, this]))
       · exact Or.inl (Mesh.set_mem_cells hc hd (by omega) (by omega))
+
+/-! ## Part 6 — linearity: the difference of two solutions solves the homogeneous system -/
+
+theorem St7.app_sub (R : St7 α) (x y : CellFld α) (c : Idx) :
+    R.app (fun c' => x c' - y c') c = R.app x c - R.app y c := by
+  simp only [St7.app]; ring
+
+theorem Row.app_sub (r : Row α) (x y : CellFld α) :
+    r.app (fun c => x c - y c) = r.app x - r.app y := by
+  unfold Row.app
+  have key : ∀ (l : List (Idx × α)) (a b : α),
+      l.foldl (fun acc e => acc + e.2 * (x e.1 - y e.1)) (a - b)
+        = l.foldl (fun acc e => acc + e.2 * x e.1) a - l.foldl (fun acc e => acc + e.2 * y e.1) b := by
+    intro l
+    induction l with
+    | nil => intro a b; rfl
+    | cons e l ih =>
+      intro a b
+      simp only [List.foldl]
+      rw [← ih]
+      congr 1; ring
+  have := key r.entries 0 0
+  rwa [sub_zero] at this
+
+/-- the same boundary conditions with all right-hand sides `c` set to zero -/
+def BCs.homog (bc : BCs α) : BCs α :=
+  ⟨fun d => ⟨(bc.lo d).a, (bc.lo d).b, fun _ => 0, (bc.lo d).periodic⟩,
+   fun d => ⟨(bc.hi d).a, (bc.hi d).b, fun _ => 0, (bc.hi d).periodic⟩⟩
+
+theorem BCs.homog_periodicDir (bc : BCs α) (d : Dir) :
+    bc.homog.periodicDir d = bc.periodicDir d := rfl
+
+theorem bcRowLo_homog (M : Mesh α) (bc : BCs α) (d : Dir) (c : Idx) :
+    (bcRowLo M bc.homog d c).entries = (bcRowLo M bc d c).entries
+      ∧ (bcRowLo M bc.homog d c).rhs = 0 := by
+  unfold bcRowLo
+  rw [BCs.homog_periodicDir]
+  by_cases hper : bc.periodicDir d = true
+  · simp only [hper, if_true]; exact ⟨trivial, trivial⟩
+  · simp only [hper]
+    exact ⟨rfl, neg_zero⟩
+
+theorem bcRowHi_homog (M : Mesh α) (bc : BCs α) (d : Dir) (c : Idx) :
+    (bcRowHi M bc.homog d c).entries = (bcRowHi M bc d c).entries
+      ∧ (bcRowHi M bc.homog d c).rhs = 0 := by
+  unfold bcRowHi
+  rw [BCs.homog_periodicDir]
+  by_cases hper : bc.periodicDir d = true
+  · simp only [hper, if_true]; exact ⟨trivial, trivial⟩
+  · simp only [hper]
+    exact ⟨rfl, rfl⟩
+
+theorem bcRow_homog (M : Mesh α) (bc : BCs α) (g : Idx) :
+    (bcRow M bc.homog g).entries = (bcRow M bc g).entries ∧ (bcRow M bc.homog g).rhs = 0 := by
+  unfold bcRow
+  split
+  · exact ⟨rfl, rfl⟩
+  · by_cases h : g.get (M.outDir g) = 0
+    · simp only [h, if_true]; exact bcRowLo_homog M bc _ _
+    · simp only [h, if_false]; exact bcRowHi_homog M bc _ _
+  · exact ⟨rfl, rfl⟩
+
+theorem Row.app_eq_of_entries {r s : Row α} (h : r.entries = s.entries) (x : CellFld α) :
+    r.app x = s.app x := by
+  unfold Row.app; rw [h]
+
+/-- the difference of two solutions of one step solves the homogeneous step (zero old values,
+    zero boundary data) -/
+theorem Solves.sub {M : Mesh α} {bc : BCs α} {D u : FaceFld α} {β old alpha : CellFld α} {dt : α}
+    {x y : CellFld α}
+    (hx : Solves M bc (stepTerms M D u β old dt alpha) x)
+    (hy : Solves M bc (stepTerms M D u β old dt alpha) y) :
+    Solves M bc.homog (stepTerms M D u β (fun _ => 0) dt alpha) (fun c => x c - y c) := by
+  intro c hb
+  have h1 := hx c hb
+  have h2 := hy c hb
+  unfold assembleOp assembleRhs at h1 h2 ⊢
+  by_cases h0 : M.outCount c = 0
+  · simp only [h0, if_true, sumRow_stepTerms, sumRhs_stepTerms] at h1 h2 ⊢
+    rw [St7.app_sub, h1, h2, sub_self]
+    simp only [stepRhs, transientRHS, mul_zero, zero_div]
+  · simp only [h0, if_false] at h1 h2 ⊢
+    obtain ⟨he, hr⟩ := bcRow_homog M bc c
+    rw [hr, Row.app_eq_of_entries he, Row.app_sub, h1, h2, sub_self]
+
+theorem BCsOK.homog {M : Mesh α} {bc : BCs α} {P : α → Prop} (h : BCsOK M bc P)
+    (Q : α → Prop) (hQ : Q 0) : BCsOK M bc.homog Q := by
+  intro d hd
+  rcases h d hd with hper | ⟨hper, hk⟩
+  · exact Or.inl hper
+  · refine Or.inr ⟨hper, fun c => ⟨?_, ?_⟩⟩
+    · rcases (hk c).1 with ⟨hdir, -⟩ | ⟨ha, hb, -⟩
+      · exact Or.inl ⟨hdir, hQ⟩
+      · exact Or.inr ⟨ha, hb, rfl⟩
+    · rcases (hk c).2 with ⟨hdir, -⟩ | ⟨ha, hb, -⟩
+      · exact Or.inl ⟨hdir, hQ⟩
+      · exact Or.inr ⟨ha, hb, rfl⟩
 
 end PyFV
